@@ -287,6 +287,8 @@ def main(argv=None):
         return 0
     t0 = time.time()
     jobs = mod.jobs(args.tier, args.seed)
+    if os.environ.get('VERIF_JOBFILTER'):      # development aid only: run a subset of the jobs
+        jobs = [j for j in jobs if os.environ['VERIF_JOBFILTER'] in repr(j)]
     total = run_jobs(modname, jobs, args.nproc, fresh=getattr(mod, 'FRESH_PROCESS_PER_JOB', False))
     extra = mod.coverage_extra(args.tier, args.seed, total) if hasattr(mod, 'coverage_extra') else None
     total.note('jobs', len(jobs))
